@@ -18,7 +18,7 @@ func (g *Group) VerifDups(key string) (int, bool) {
 	if !ok {
 		return 0, false
 	}
-	return c.dups, true
+	return int(c.dups), true
 }
 
 // VerifSnapshot returns key -> dups for every in-flight call.
@@ -27,7 +27,7 @@ func (g *Group) VerifSnapshot() map[string]int {
 	defer g.mu.Unlock()
 	out := map[string]int{}
 	for k, c := range g.m {
-		out[k] = c.dups
+		out[k] = int(c.dups)
 	}
 	return out
 }
